@@ -264,8 +264,11 @@ def known_findings():
     global _kf
     if _kf is None:
         _kf = {}
-        p = os.path.join(VERIF, "KNOWN_FINDINGS.jsonl")
-        if os.path.exists(p):
+        import glob
+        files = [os.path.join(VERIF, "KNOWN_FINDINGS.jsonl")] + sorted(glob.glob(os.path.join(VERIF, "known_findings", "*.jsonl")))
+        for p in files:
+            if not os.path.exists(p):
+                continue
             for line in open(p):
                 line = line.strip()
                 if not line or line.startswith("#"):
